@@ -365,14 +365,16 @@ Definition T (k : nat) : var := 20 + k.
 (* ---------------------------------------------------------------------------------------------- *)
 (** ribs/_utils.py: validate_batch -- every array-like is passed through np.asarray and rebinds data[name]; WITHOUT dtype
     (105, 132, 143 data; 158, 168, 177 add_info; 190 jacobian) except the objective (124: dtype=archive.dtypes["objective"],
-    as validate_single does).  In every caller the registers are  solution objective measures ...  : objective is register 1. *)
+    as validate_single does) and, since fix FC07a, the measures (np.asarray, then .astype(archive dtype, copy=False): the same
+    aliasing behaviour as np.asarray with a dtype).  In every caller the registers are  solution objective measures ...  :
+    objective is register 1, measures register 2. *)
 Definition validate_batch (regs : list var) : list instr :=
-  map (fun kr => IAsarray (snd kr) (snd kr) (Nat.eqb (fst kr) 1)) (combine (seq 0 (length regs)) regs).
+  map (fun kr => IAsarray (snd kr) (snd kr) (Nat.eqb (fst kr) 1 || Nat.eqb (fst kr) 2)) (combine (seq 0 (length regs)) regs).
 
 (** ribs/_utils.py: validate_single -- solution (205) and measures (217) np.asarray, objective np_scalar (213,
-    a fresh scalar); extra fields are NOT converted. *)
+    a fresh scalar); the measures are converted to the archive's dtype (fix FC07a); extra fields are NOT converted. *)
 Definition validate_single (sol obj meas : var) : list instr :=
-  [IAsarray sol sol false; ICopy obj obj; IAsarray meas meas false].
+  [IAsarray sol sol false; ICopy obj obj; IAsarray meas meas true].
 
 (** ArrayStore.retrieve(indices) (_array_store.py 319-376) into registers occ, then one per field, then index.
     322 asarray(dtype=int32); 323 / 347 fancy indexing induces a copy; 345 np.copy(indices). *)
